@@ -142,10 +142,14 @@ def std_summaries(program: Program) -> Dict[str, Callable]:
             stores = [n for n in ast.walk(fi.node) if isinstance(n, ast.Subscript) and isinstance(n.ctx, ast.Store) and on_store(n.value)]
             reads = [n for n in ast.walk(fi.node) if isinstance(n, ast.Return) and n.value is not None and
                      any(on_store(m) for m in ast.walk(n.value))]
+            pnames = [x.arg for x in a.posonlyargs + a.args + a.kwonlyargs if x.arg not in ("self", "cls")]
+            keyed_reads = [r for r in reads if pnames and any(isinstance(m, ast.Name) and m.id == pnames[0] for m in ast.walk(r.value))]
             if stores and nparams == 2 and not name.startswith("__"):
                 setters.append(name)
-            elif reads and nparams == 1 and not stores and not name.startswith("__"):
-                getters.append(name)
+            elif keyed_reads and nparams >= 1 and not stores and not name.startswith("__"):
+                getters.append(name)       # returns the store's entry for its first parameter (a default may follow)
+        if "get_info" in getters:
+            getters = ["get_info"]         # the public accessor, when it is one of them
     if len(setters) != 1 or len(getters) != 1:
         raise AnalysisError(f"JASMConfig: expected one setter and one getter of the global store, found {setters} / {getters}")
     out[f"JASMConfig.{getters[0]}"] = s_get_info
